@@ -33,6 +33,9 @@ func (rt *Transfer) RecvFiles(fileList []*File) error {
 			}
 			break
 		}
+		if idx < 0 || int(idx) >= len(fileList) {
+			return fmt.Errorf("protocol error: invalid file index %d (file list has %d entries)", idx, len(fileList))
+		}
 		if rt.Opts.DebugGTE(rsyncopts.DEBUG_RECV, 1) {
 			rt.Logger.Printf("receiving file idx=%d: %+v", idx, fileList[idx])
 		}
